@@ -114,6 +114,14 @@ def main():
             ck.broken_obligation(f"correspondence model/binary for {r['name']}: {v['kind']}", v)
         if len(ck.samples) < 4 and r["ends"]:
             ck.samples.append({"program": r["name"], "end_calls": r["ends"], "has_end_pattern": r["end_pattern"]})
+    # end-of-input against the reference semantics (its `fin` step), at -O1 and -O3, for the programs
+    # that have `end` patterns (corpus and generated)
+    import refcheck
+    endprogs = [dict(p, args=[a for a in p["args"] if a != "-feof-support"] + ["-feof-support"], also_O3=True, c_stage=False)
+                for p in progs if has_end_pattern(p["src"])]
+    rres = refcheck.collect("C17", endprogs)
+    rst, _ = refcheck.judge(ck, "C17", endprogs, rres)
+    st["reference_comparisons"] = {k: rst[k] for k in ("accepted", "closed", "closed_relaxed", "mismatch", "rejected", "unsupported")}
     ck.finish({"evaluations": st["end_calls"], "distinct_nontrivial": len(distinct),
                "traces_validated_against_impl": st["end_calls"],
                "rule": "programs compiled with EOF support (default and strict-done); end() after every prefix of random walks; distinct programs by source hash with at least 3 states",
